@@ -182,7 +182,8 @@ class TractWriter:
                 elem = ','.join([f"{k}:{v}" for k, v in elem.items()])
             elif isinstance(elem, (list, tuple)):
                 flat = flatten(elem)
-                elem = ', '.join(flat)
+                # (Allow for non-string elements -- e.g. `.ilots`.)
+                elem = ', '.join(str(e) for e in flat)
             scrubbed.append(elem)
         return scrubbed
 
